@@ -29,3 +29,7 @@ PROBES = list(PROBES) + ["derived-cube-made-in-mid-history", "derived-cube-retun
 PROBES = list(PROBES) + ["implied-shift-beyond-2^20-bins"]
 RULE = RULE + (" Round 9: 12% of histories re-tune an hour-long fold of a 1-2.5 ms period to harmonics (2P, P/2, 3P/2, 3P): drifts of tens of millions of bins (beyond 2^24); "
                "the absolute model is skipped beyond 2^20 bins (float32 drift formula), history independence and return-to-fold remain.")
+
+# dimensions added in seeded round 10
+PROBES = list(PROBES) + ["cube-of-millions-of-samples"]
+RULE = RULE + " Round 10: 0.4% of histories (1% thorough) use a cube of 2-2.4 million samples (64x64x512, 128x128x128, 40x60x1024, 300x8x1024) whose first update rotates, judged by the absolute drift model."
